@@ -716,6 +716,52 @@ func checkCypherWalkers(r *Run) {
 			}
 		}
 		each(st)
+		// a child placed only in the else-branch of a test on ANOTHER child field is skipped whenever that sibling is present
+		for _, body := range sc.clause.Body {
+			ast.Inspect(body, func(n ast.Node) bool {
+				ifs, ok := n.(*ast.IfStmt)
+				if !ok || ifs.Else == nil {
+					return true
+				}
+				condFields := map[string]bool{}
+				ast.Inspect(ifs.Cond, func(m ast.Node) bool {
+					if sel, ok := m.(*ast.SelectorExpr); ok {
+						if sl := wp.TypesInfo.Selections[sel]; sl != nil && sl.Kind() == types.FieldVal {
+							if id, ok := ast.Unparen(sel.X).(*ast.Ident); ok && sc.bound != nil && wp.TypesInfo.Uses[id] == sc.bound {
+								condFields[sel.Sel.Name] = true
+							}
+						}
+					}
+					return true
+				})
+				if len(condFields) == 0 {
+					return true
+				}
+				ast.Inspect(ifs.Else, func(m ast.Node) bool {
+					call, ok := m.(*ast.CallExpr)
+					if !ok {
+						return true
+					}
+					if sel, ok := call.Fun.(*ast.SelectorExpr); !ok || !strings.HasPrefix(sel.Sel.Name, "AddBranch") {
+						return true
+					}
+					for _, a := range call.Args {
+						ast.Inspect(a, func(k ast.Node) bool {
+							if fsel, ok := k.(*ast.SelectorExpr); ok {
+								if sl := wp.TypesInfo.Selections[fsel]; sl != nil && sl.Kind() == types.FieldVal {
+									if id, ok := ast.Unparen(fsel.X).(*ast.Ident); ok && sc.bound != nil && wp.TypesInfo.Uses[id] == sc.bound && !condFields[fsel.Sel.Name] {
+										r.Fail("C11-walk-structural-child", name+"."+fsel.Sel.Name+":exclusive", call.Pos(), "structural walker (%s) visits child field %s of %s only in the else-branch of a test on %v: when both are set (the model and Copy allow it) the child is silently skipped", sc.fn, fsel.Sel.Name, name, sortedKeys(condFields))
+									}
+								}
+							}
+							return true
+						})
+					}
+					return true
+				})
+				return true
+			})
+		}
 		// semantic ⊆ structural
 		if mc, ok := semCases[keyPtr]; ok {
 			sem := fieldsPlaced(wp, mc, nt)
